@@ -70,3 +70,76 @@ Theorem C10_prescan_total :
 Proof. exact Verif.Properties.C18.C18_prescan_total. Qed.
 Print Assumptions C10_prescan_total.
 Check Verif.Properties.C18.C18_prescan_total.
+
+(* ---------------- no-crash / always-answers facts of the compiled-program chain, the finders, the prefilter
+   closures and the literal parser (collected from C01, C13, C03, C02, C19; one composed corollary from
+   Proofs/ComposeExec.v) ---------------- *)
+From Verif Require Properties.C01 Properties.C02 Properties.C03 Properties.C19 Proofs.ComposeExec.
+
+(* one execute() call on the program of ANY supported2 tree (every constructor, balancing groups included),
+   real finite stacks, any stack limit, any interpreter fuel: the outcome is ErrBacktrackingStackLimit, a
+   returned state, or out-of-fuel -- a trichotomy without a Crash case.  Residual hypothesis: the reference
+   attempt terminates within the engine's counter range (Spec.attempt ... = Ok r). *)
+Theorem C10_compiled_program_never_crashes :
+  ltac:(let t := type of Verif.Properties.C01.C01_exec_total in exact t).
+Proof. exact Verif.Properties.C01.C01_exec_total. Qed.
+Print Assumptions C10_compiled_program_never_crashes.
+Check Verif.Properties.C01.C01_exec_total.
+
+(* ... the same read explicitly: exec_at never equals Crash k (composed: the trichotomy above excludes the
+   fourth constructor of Prelude.res).  Same hypotheses as C01_exec_total. *)
+Theorem C10_exec_never_crashes_explicit :
+  ltac:(let t := type of Verif.Proofs.ComposeExec.cx_exec_never_crashes in exact t).
+Proof. exact Verif.Proofs.ComposeExec.cx_exec_never_crashes. Qed.
+Print Assumptions C10_exec_never_crashes_explicit.
+Check Verif.Proofs.ComposeExec.cx_exec_never_crashes.
+
+(* every program the writer emits (any configuration, any tree) is control-flow safe: along the unbounded
+   path every state is at an instruction boundary with a grouping stack inside its capacity -- no hypothesis
+   on the input *)
+Theorem C10_compiled_program_control_flow_safe :
+  ltac:(let t := type of Verif.Properties.C01.C01_every_compiled_program_is_control_flow_safe in exact t).
+Proof. exact Verif.Properties.C01.C01_every_compiled_program_is_control_flow_safe. Qed.
+Print Assumptions C10_compiled_program_control_flow_safe.
+Check Verif.Properties.C01.C01_every_compiled_program_is_control_flow_safe.
+
+(* C10_limit_dichotomy_partial without its control-flow hypothesis, for compiled programs: under any limit the
+   scan is ErrBacktrackingStackLimit or agrees with the unlimited scan in EVERY outcome *)
+Theorem C10_limit_dichotomy_compiled :
+  ltac:(let t := type of Verif.Properties.C13.C13_limit_dichotomy_compiled in exact t).
+Proof. exact Verif.Properties.C13.C13_limit_dichotomy_compiled. Qed.
+Print Assumptions C10_limit_dichotomy_compiled.
+Check Verif.Properties.C13.C13_limit_dichotomy_compiled.
+
+(* findFirstCharOptimized, every FindMode the dispatcher serves: the conclusion [fd_sound] unfolds to
+   "at every in-range position p the finder ANSWERS  Ok (found, q)  with p <= q <= len ..." -- no fault
+   (index out of range) and no exhausted loop.  Hypotheses: the facts of the mode (C04). *)
+Theorem C10_optimized_finders_answer_ok :
+  ltac:(let t := type of Verif.Properties.C03.C03_finder_optimized_dispatch in exact t).
+Proof. exact Verif.Properties.C03.C03_finder_optimized_dispatch. Qed.
+Print Assumptions C10_optimized_finders_answer_ok.
+Check Verif.Properties.C03.C03_finder_optimized_dispatch.
+
+(* the seven string-entry prefilter closures: on every byte string (invalid UTF-8 included) and every rune
+   boundary the closure answers  Ok (c, ok)  -- no fault, loops terminate within len+1 turns *)
+Theorem C10_prefilter_closures_answer_ok :
+  ltac:(let t := type of Verif.Properties.C02.C02_prefilter_sound_and_transparent in exact t).
+Proof. exact Verif.Properties.C02.C02_prefilter_sound_and_transparent. Qed.
+Print Assumptions C10_prefilter_closures_answer_ok.
+Check Verif.Properties.C02.C02_prefilter_sound_and_transparent.
+
+(* the modelled fragment of the pattern parser: on every pattern and option set a tree, "outside the fragment"
+   or a syntax error -- never a Go run-time fault, never out of fuel *)
+Theorem C10_literal_parser_total :
+  ltac:(let t := type of Verif.Properties.C19.C19_parse_lit_total in exact t).
+Proof. exact Verif.Properties.C19.C19_parse_lit_total. Qed.
+Print Assumptions C10_literal_parser_total.
+Check Verif.Properties.C19.C19_parse_lit_total.
+
+(* all of findFirstCharDefault (anchor jumps, Boyer-Moore oracle, optimized finders, first-character loop, both
+   directions): at every position of the text it answers Ok -- no index fault, no exhausted loop *)
+Theorem C10_default_finder_answers_ok :
+  ltac:(let t := type of Verif.Properties.C03.C03_finder_default_answers_ok in exact t).
+Proof. exact Verif.Properties.C03.C03_finder_default_answers_ok. Qed.
+Print Assumptions C10_default_finder_answers_ok.
+Check Verif.Properties.C03.C03_finder_default_answers_ok.
